@@ -49,6 +49,11 @@ Qed.
 Lemma parsed_not_lone s u : parse s = POk u -> lone_empty_hostless u = false.
 Proof. intros H. exact (proj1 (proj2 (proj2 (ParseWf.parse_wf_normalization s u H)))). Qed.
 
+(* the reference made from a parsed source (any base, either mode) never holds a lone empty segment *)
+Lemma remove_base_no_lone_empty_parsed m s S base : parse s = POk S ->
+  lone_empty_hostless (snd (remove_base m S base)) = false.
+Proof. intros HS. exact (remove_base_no_lone_empty m S base (parsed_not_lone s S HS)). Qed.
+
 Lemma parsed_hostless_bare s u : parse s = POk u -> is_host_set u = false ->
   is_some (userInfo u) = false /\ is_some (portText u) = false.
 Proof.
